@@ -238,6 +238,7 @@ fn deviations(v: &[u8]) -> usize {
 fn explore_choices(plan: &[u64; 256], alt: &[[u64; 3]; 256], seed: &[COp], ops: &[COp], d: usize, count: &AtomicU64, maxpts: &AtomicU64) -> Result<(), (Vec<u8>, String)> {
     let mut stack: Vec<Vec<u8>> = vec![vec![]];
     while let Some(prefix) = stack.pop() {
+        crate::crumbs::touch();
         count.fetch_add(1, Ordering::Relaxed);
         let log = match execute(plan, alt, seed, ops, &prefix) {
             Ok(l) => l,
